@@ -1,5 +1,306 @@
+//! Workload "fault" (C16): device faults surface as errors; short I/O changes nothing.
+//! (a) chunking schedules for reads and writes: byte-identical files, identical read results.
+//! (b) one injected error at EVERY device operation index of the writer program and of the
+//!     reader suite: the public call in progress must return Err (no panic, no Ok), and
+//!     whenever top-level finalize returns Ok the device holds the complete file.
+
+use crate::dev::{Chunking, Dev, FaultKind, OpKind};
+use crate::json::J;
+use crate::obs::*;
+use crate::rng::Rng;
+use crate::scene::*;
+use crate::w_crc::all_blobs;
 use crate::{Args, Reporter};
-pub fn run(_a: &Args, _rep: &mut Reporter) {
-    eprintln!("workload not built yet");
-    std::process::exit(2);
+use e57::*;
+
+fn small_scene(r: &mut Rng, cover: &mut crate::Cover) -> Scene {
+    let mut k = Knobs::base();
+    k.max_items = 3;
+    k.big_points = false;
+    k.max_records = 8;
+    let mut s = gen_scene(r, &k, cover);
+    let mut has = false;
+    for it in s.items.iter_mut() {
+        match it {
+            Item::Pc(pc) => {
+                has = true;
+                pc.meta.intensity_limits = None;
+                pc.meta.color_limits = None;
+                pc.points.truncate(30);
+            }
+            Item::Blob(b) => b.truncate(1500),
+            _ => {}
+        }
+    }
+    if !has {
+        let pc = gen_pc(r, &k, &[], cover);
+        s.items.push(Item::Pc(PcSpec { meta: PcMeta::default(), ..pc }));
+    }
+    s
+}
+
+/// the read suite as a list of (label, result) with one public operation per entry
+fn read_suite(dev: Dev, extra_blobs: &[Blob], call_base: u32) -> Vec<(String, std::result::Result<String, String>, u32)> {
+    let mut out = Vec::new();
+    let mut call = call_base;
+    let mut next = |dev: &Dev| {
+        call += 1;
+        dev.set_call(call);
+        call
+    };
+    let c = next(&dev);
+    let d2 = dev.clone();
+    let rd = guarded(move || E57Reader::new(d2));
+    dev.set_call(0);
+    let mut rd = match rd {
+        Ok(Ok(rd)) => {
+            out.push(("new".to_string(), Ok(meta_lines(&rd, true).join("\n")), c));
+            rd
+        }
+        Ok(Err(e)) => {
+            out.push(("new".to_string(), Err(err_str(&e)), c));
+            return out;
+        }
+        Err(p) => {
+            out.push(("new".to_string(), Err(format!("PANIC {}", p)), c));
+            return out;
+        }
+    };
+    let pcs = rd.pointclouds();
+    let blobs = all_blobs(&rd.images(), extra_blobs);
+    for (i, pc) in pcs.iter().enumerate() {
+        let c = next(&dev);
+        let r = guarded(|| read_raw(&mut rd, pc, 1 << 20));
+        dev.set_call(0);
+        out.push((
+            format!("raw{}", i),
+            match r {
+                Err(p) => Err(format!("PANIC {}", p)),
+                Ok(Err(e)) => Err(e),
+                Ok(Ok(rr)) => match &rr.end {
+                    End::Err(e) => Err(e.clone()),
+                    _ => Ok(rr.items.iter().map(|p| raw_str(p)).collect::<Vec<_>>().join(";")),
+                },
+            },
+            c,
+        ));
+        let c = next(&dev);
+        let r = guarded(|| read_simple(&mut rd, pc, Opts::DEFAULT, 1 << 20));
+        dev.set_call(0);
+        out.push((
+            format!("simple{}", i),
+            match r {
+                Err(p) => Err(format!("PANIC {}", p)),
+                Ok(Err(e)) => Err(e),
+                Ok(Ok(rr)) => match &rr.end {
+                    End::Err(e) => Err(e.clone()),
+                    _ => Ok(rr.items.iter().map(point_str).collect::<Vec<_>>().join(";")),
+                },
+            },
+            c,
+        ));
+    }
+    for (i, b) in blobs.iter().enumerate() {
+        let c = next(&dev);
+        let r = guarded(|| read_blob(&mut rd, b));
+        dev.set_call(0);
+        out.push((
+            format!("blob{}", i),
+            match r {
+                Err(p) => Err(format!("PANIC {}", p)),
+                Ok(Err(e)) => Err(e),
+                Ok(Ok((n, d))) => Ok(format!("{}:{:016x}", n, crate::json::fnv64(&d))),
+            },
+            c,
+        ));
+    }
+    out
+}
+
+fn chunkings(r: &mut Rng, n: usize) -> Vec<(Chunking, &'static str)> {
+    let mut v: Vec<(Chunking, &'static str)> = vec![(Chunking::One, "one-byte"), (Chunking::Alt(false), "alternating"), (Chunking::Rand(Rng::new(r.u64())), "random"), (Chunking::RandIntr(Rng::new(r.u64())), "random+interrupted")];
+    while v.len() < n {
+        let k = 2 + r.usize(1100);
+        v.push((Chunking::Small(k), "fixed-k"));
+        v.push((Chunking::Rand(Rng::new(r.u64())), "random"));
+    }
+    v.truncate(n);
+    v
+}
+
+pub fn run(a: &Args, rep: &mut Reporter) {
+    let n_sched = if a.thorough() { 16 } else { 4 };
+    let (done, reason) = crate::run_cases(a, rep, |idx, cs, rep| {
+        let mut r = Rng::new(cs);
+        let mut cover = std::mem::take(&mut rep.cover);
+        let mut scene = small_scene(&mut r, &mut cover);
+        scene.stop_on_err = true;
+        // ---------- fault-free baseline
+        let dev0 = Dev::empty();
+        dev0.set_record(true, false);
+        let run0 = run_scene(&scene, dev0.clone(), Judge::Conforming);
+        if !run0.finalized {
+            rep.stat("programs_not_finalized", 1);
+            rep.cover = cover;
+            return;
+        }
+        let base_bytes = dev0.bytes();
+        let total_ops = dev0.ops_done();
+        let base_ops = dev0.take_ops();
+        let extra: Vec<Blob> = run0.blobs.iter().map(|(b, _)| b.clone()).collect();
+        let rdev = Dev::new(base_bytes.clone());
+        rdev.set_record(true, false);
+        let base_read = read_suite(rdev.clone(), &extra, 0);
+        let read_total_ops = rdev.ops_done();
+        if base_read.iter().any(|(_, r, _)| r.is_err()) {
+            rep.stat("baseline_read_failed", 1);
+            rep.cover = cover;
+            return;
+        }
+        rep.stat("programs", 1);
+        rep.stat("writer_device_ops", total_ops);
+        rep.stat("reader_device_ops", read_total_ops);
+        let calls_desc: Vec<String> = run0.calls.iter().map(|c| c.op.clone()).collect();
+
+        // ---------- (a) chunking schedules
+        for (wc, wname) in chunkings(&mut r, n_sched) {
+            let d = Dev::empty();
+            d.set_chunking(Chunking::Rand(Rng::new(r.u64())), wc);
+            let run = run_scene(&scene, d.clone(), Judge::Conforming);
+            rep.stat("schedules_write", 1);
+            cover.hit(&format!("schedule:write:{}", wname));
+            for v in &run.violations {
+                if v.sig.starts_with("panic") {
+                    rep.violation("C16", &format!("short-write/{}", v.sig), idx, &v.detail);
+                }
+            }
+            if !run.finalized {
+                rep.violation("C16", &format!("short-write/program-failed/{}", wname), idx, &format!("program that succeeds with full transfers fails under write chunking '{}': {:?}", wname, run.calls.iter().filter(|c| !c.ok).map(|c| format!("{} -> {:?}", c.op, c.err)).collect::<Vec<_>>()));
+                continue;
+            }
+            if d.bytes() != base_bytes {
+                let b = d.bytes();
+                let first = b.iter().zip(base_bytes.iter()).position(|(x, y)| x != y).unwrap_or(b.len().min(base_bytes.len()));
+                rep.violation("C16", &format!("short-write/different-file/{}", wname), idx, &format!("file written under write chunking '{}' differs from the fault-free file (sizes {} vs {}, first difference at byte {})", wname, b.len(), base_bytes.len(), first));
+            }
+        }
+        for (rc, rname) in chunkings(&mut r, n_sched) {
+            let d = Dev::new(base_bytes.clone());
+            d.set_chunking(rc, Chunking::Full);
+            let res = read_suite(d, &extra, 0);
+            rep.stat("schedules_read", 1);
+            cover.hit(&format!("schedule:read:{}", rname));
+            if res.len() != base_read.len() {
+                rep.violation("C16", &format!("short-read/different-results/{}", rname), idx, &format!("read suite yields {} results under read chunking '{}', {} with full transfers", res.len(), rname, base_read.len()));
+                continue;
+            }
+            for ((l, a, _), (_, b, _)) in res.iter().zip(base_read.iter()) {
+                if a != b {
+                    rep.violation("C16", &format!("short-read/different-results/{}", rname), idx, &format!("{} differs under read chunking '{}': {:?} vs {:?}", l, rname, a.as_ref().map(|s| s.chars().take(120).collect::<String>()), b.as_ref().map(|s| s.chars().take(120).collect::<String>())));
+                    break;
+                }
+            }
+        }
+
+        // ---------- (b) writer: one fault at every device operation
+        let kinds = [FaultKind::Other, FaultKind::Eof];
+        for k in 0..total_ops {
+            let op = base_ops.get(k as usize);
+            let mut ks: Vec<FaultKind> = vec![kinds[(k as usize + idx as usize) % 2]];
+            if a.thorough() {
+                ks = kinds.to_vec();
+            }
+            if let Some(o) = op {
+                if o.kind == OpKind::Write {
+                    ks.push(FaultKind::ShortZero); // device accepts no more bytes
+                }
+            }
+            for fk in ks {
+                let d = Dev::empty();
+                d.set_fault(k, fk, false);
+                let run = run_scene(&scene, d.clone(), Judge::Conforming);
+                rep.stat("writer_fault_runs", 1);
+                let hit = d.fail_hit();
+                let opk = op.map(|o| format!("{:?}", o.kind)).unwrap_or_else(|| "?".into());
+                match hit {
+                    None => {
+                        // the run diverged before reaching op k (cannot happen for deterministic programs)
+                        rep.stat("writer_fault_not_reached", 1);
+                        continue;
+                    }
+                    Some((_, kind, call)) => {
+                        let call_name = run.calls.iter().find(|c| c.no == call).map(|c| c.op.clone()).unwrap_or_else(|| if call == 0 { "(drop)".into() } else { "(add_point)".into() });
+                        cover.hit(&format!("writer-fault:{:?}:{:?}:{}", kind, fk, call_name.split(' ').next().unwrap_or("?")));
+                        if run.panicked {
+                            rep.violation("C16", &format!("writer/panic/{:?}/{}", kind, call_name), idx, &format!("device {:?} fault ({:?}) at op {} during {}: the library panicked: {:?}", kind, fk, k, call_name, run.calls.last().and_then(|c| c.panic.clone())));
+                            continue;
+                        }
+                        if call != 0 {
+                            // the call in progress must have returned Err
+                            let rec = run.calls.iter().find(|c| c.no == call);
+                            let returned_err = match rec {
+                                Some(c) => !c.ok,
+                                None => run.stopped_on_err, // add_point calls are only recorded when they fail
+                            };
+                            if !returned_err {
+                                rep.violation("C16", &format!("writer/error-swallowed/{:?}/{}", kind, call_name.split(' ').next().unwrap_or("?")), idx, &format!("device {} fault ({:?}) at device op {} during public call '{}' but the call returned Ok; program {:?}", opk, fk, k, call_name, calls_desc));
+                            } else {
+                                rep.stat("writer_calls_returned_err", 1);
+                            }
+                        } else {
+                            rep.stat("writer_fault_in_drop_exempt", 1);
+                        }
+                        if run.finalized && d.bytes() != base_bytes {
+                            rep.violation("C16", &format!("writer/finalize-ok-but-incomplete/{:?}", kind), idx, &format!("fault at op {} ({:?}) in call '{}': top-level finalize returned Ok but the device image differs from the complete file", k, fk, call_name));
+                        }
+                    }
+                }
+            }
+        }
+        // ---------- (b) reader: one fault at every device operation of the read suite
+        for k in 0..read_total_ops {
+            for fk in [kinds[(k as usize + idx as usize) % 2]] {
+                let d = Dev::new(base_bytes.clone());
+                d.set_fault(k, fk, false);
+                let res = read_suite(d.clone(), &extra, 0);
+                rep.stat("reader_fault_runs", 1);
+                let hit = match d.fail_hit() {
+                    Some(h) => h,
+                    None => {
+                        rep.stat("reader_fault_not_reached", 1);
+                        continue;
+                    }
+                };
+                let (_, kind, call) = hit;
+                for (l, r0, c) in &res {
+                    if let Err(e) = r0 {
+                        if e.starts_with("PANIC") {
+                            rep.violation("C16", &format!("reader/panic/{:?}/{}", kind, l.trim_end_matches(char::is_numeric)), idx, &format!("device fault at read-suite op {}: {} panicked: {}", k, l, e));
+                        }
+                    }
+                    if *c == call {
+                        cover.hit(&format!("reader-fault:{:?}:{}", kind, l.trim_end_matches(char::is_numeric)));
+                        if r0.is_ok() {
+                            rep.violation("C16", &format!("reader/error-swallowed/{:?}/{}", kind, l.trim_end_matches(char::is_numeric)), idx, &format!("device {:?} fault ({:?}) at device op {} during '{}' but the operation returned Ok", kind, fk, k, l));
+                        } else {
+                            rep.stat("reader_calls_returned_err", 1);
+                        }
+                    } else if *c < call {
+                        // operations completed before the fault are unaffected
+                        if let Some((_, b, _)) = base_read.iter().find(|(bl, _, _)| bl == l) {
+                            if r0 != b {
+                                rep.violation("C16", "reader/earlier-result-differs", idx, &format!("{} (before the fault) differs from the fault-free result", l));
+                            }
+                        }
+                    }
+                }
+            }
+        }
+        if rep.samples < rep.max_samples {
+            rep.sample(J::obj().set("case", J::i(idx as i128)).set("calls", J::Arr(calls_desc.iter().take(16).map(|c| J::s(c)).collect())).set("writer_device_ops", J::i(total_ops as i128)).set("reader_device_ops", J::i(read_total_ops as i128)));
+        }
+        cover.hit_num("program_shape", crate::rng::hash_str(&format!("{:?}", calls_desc)) >> 8);
+        rep.cover = cover;
+    });
+    rep.finish(done, reason);
 }
